@@ -283,3 +283,9 @@ fn reload_zones_and_keys(
     server.set_tsig_keys(new_tsig_key_map);
     Ok(new_catalog)
 }
+
+/// Verification hook: exposes the body of the SIGHUP handler.
+#[cfg(quandary_verif)]
+pub fn verif_reload(config_path: &Path, server: &Server, catalog: &Catalog) -> Result<Arc<Catalog>> {
+    reload_zones_and_keys(&ReloadSource::Config(config_path), server, catalog)
+}
